@@ -1,4 +1,798 @@
-//! vschema: engine for C13 (stub)
+//! vschema: bounded exhaustive check of property C13 (schema persistence at library format
+//! versions 0/1/2, reflexivity and completeness of `diff_schema`).
+//!
+//! Every enumerated schema tree `S` (model type `vmodel::schema::RS`) is converted to a real
+//! `savefile::Schema` with the public constructors and pushed through the REAL serializer,
+//! deserializer and `diff_schema`; the independent model codec of `vmodel::schema` supplies the
+//! expected bytes / trees and the format-0 input.
+mod acc;
+mod conv;
+mod files;
+mod gen;
+mod mutate;
+
+use acc::{real_de, real_diff, real_ser, DiffOutcome, Partial};
+use conv::{features, normalize, rs_from_json, rs_to_json, to_real};
+use std::collections::HashSet;
+use vcommon::serde_json::{json, Map, Value};
+use vcommon::{tags, Tier, Violation};
+use vmodel::schema::{decode_schema, encode_schema, strip_layout, RS};
+
+/// What to run on a tree. `only_mutation`: replay of one (tree, mutation) pair.
+#[derive(Clone, Default)]
+struct Opts {
+    mutations: bool,
+    only_mutation: Option<(String, RS)>,
+    verbose: bool,
+}
+
+fn tree_case(s: &RS, version: Option<u16>, mutation: Option<(&str, &str, &RS)>) -> Value {
+    let mut c = json!({"kind": "tree", "tree": rs_to_json(s)});
+    if let Some(v) = version {
+        c["version"] = json!(v);
+    }
+    if let Some((kind, desc, result)) = mutation {
+        c["mutation"] = json!({"kind": kind, "desc": desc, "result": rs_to_json(result)});
+    }
+    c
+}
+
+fn short(s: &RS) -> String {
+    let t = format!("{:?}", s);
+    if t.len() > 300 {
+        format!("{}…", t.chars().take(300).collect::<String>())
+    } else {
+        t
+    }
+}
+
+fn check_tree(s: &RS, p: &mut Partial, o: &Opts) {
+    let f = features(s);
+    let real = to_real(s);
+    p.count("evaluations", 1);
+    let nontrivial = f.has_layout_annotation || f.has_trait_def;
+    if nontrivial {
+        p.count("nontrivial_trees", 1);
+    }
+    let say = |m: String| {
+        if o.verbose {
+            println!("  {}", m);
+        }
+    };
+
+    // ---------------------------------------------------------------- (a) persistence at 1, 2
+    let mut bound = true;
+    for v in [1u16, 2u16] {
+        let vt = |extra: &[(&str, String)]| {
+            let mut t = vec![("format_version", v.to_string())];
+            t.extend(extra.iter().cloned());
+            tags(&t)
+        };
+        let model_bytes = encode_schema(s, v);
+        let bytes = match real_ser(p, &real, v) {
+            Ok(b) => b,
+            Err(e) => {
+                bound = false;
+                p.violation(Violation {
+                    oracle: "persist_error".into(),
+                    tags: vt(&[("step", "serialize".into())]),
+                    summary: format!("serializing at format {} fails ({}) for {}", v, e, short(s)),
+                    case: tree_case(s, Some(v), None),
+                });
+                continue;
+            }
+        };
+        say(format!("format {}: real bytes {}", v, vcommon::hex(&bytes)));
+        if bytes != model_bytes {
+            p.violation(Violation {
+                oracle: "persist_bytes_vs_model".into(),
+                tags: vt(&[]),
+                summary: format!(
+                    "format {}: real bytes {} != model bytes {} for {}",
+                    v,
+                    vcommon::hex(&bytes),
+                    vcommon::hex(&model_bytes),
+                    short(s)
+                ),
+                case: tree_case(s, Some(v), None),
+            });
+        }
+        let norm = normalize(s, v);
+        match real_de(p, &bytes, v) {
+            Ok((back, rest)) => {
+                if rest != 0 {
+                    p.violation(Violation {
+                        oracle: "persist_error".into(),
+                        tags: vt(&[("step", "trailing_bytes".into())]),
+                        summary: format!("format {}: deserializer leaves {} bytes unread for {}", v, rest, short(s)),
+                        case: tree_case(s, Some(v), None),
+                    });
+                }
+                if back == real {
+                    p.outcome(&format!("persist_v{}_exact", v));
+                    say(format!("format {}: read back == written", v));
+                } else {
+                    p.outcome(&format!("persist_v{}_changed", v));
+                    let feature = if norm != *s && back == to_real(&norm) {
+                        "trait_method_receiver_or_async"
+                    } else {
+                        "other"
+                    };
+                    say(format!("format {}: read back != written ({})", v, feature));
+                    p.violation(Violation {
+                        oracle: "persist_roundtrip".into(),
+                        tags: vt(&[("feature", feature.into())]),
+                        summary: format!(
+                            "format {}: deserialize(serialize(S)) != S ({}) for {}",
+                            v,
+                            if feature == "other" {
+                                "unexplained difference"
+                            } else {
+                                "receiver kind / async flag of a trait method are not stored and come back as &self / false"
+                            },
+                            short(s)
+                        ),
+                        case: tree_case(s, Some(v), None),
+                    });
+                }
+            }
+            Err(e) => {
+                p.violation(Violation {
+                    oracle: "persist_error".into(),
+                    tags: vt(&[("step", "deserialize".into())]),
+                    summary: format!("format {}: deserializing the real bytes fails ({}) for {}", v, e, short(s)),
+                    case: tree_case(s, Some(v), None),
+                });
+            }
+        }
+        // the model decoder reads the real bytes as what format v can express of S
+        match decode_schema(&bytes, v) {
+            Ok((t, used)) if used == bytes.len() && t == norm => {}
+            other => {
+                bound = false;
+                p.violation(Violation {
+                    oracle: "persist_model_decode".into(),
+                    tags: vt(&[]),
+                    summary: format!(
+                        "format {}: model decoder on the real bytes gives {:?}, expected {}",
+                        v,
+                        other.map(|x| (short(&x.0), x.1)),
+                        short(&norm)
+                    ),
+                    case: tree_case(s, Some(v), None),
+                });
+            }
+        }
+        // if the bytes differ, the real decoder must still read the model's bytes as norm
+        if bytes != model_bytes {
+            bound = false;
+            match real_de(p, &model_bytes, v) {
+                Ok((back, 0)) if back == to_real(&norm) => {}
+                other => p.violation(Violation {
+                    oracle: "persist_bytes_vs_model".into(),
+                    tags: vt(&[("step", "real_reads_model_bytes".into())]),
+                    summary: format!("format {}: real decoder on model bytes: {:?}", v, other.map(|x| x.1)),
+                    case: tree_case(s, Some(v), None),
+                }),
+            }
+        }
+    }
+    if bound {
+        p.count("traces_validated_against_impl", 1);
+    }
+
+    // ---------------------------------------------------------------- (b) format 0
+    {
+        let b0 = encode_schema(s, 0);
+        let exp0 = strip_layout(s);
+        p.outcome(if exp0 == *s { "format0_lossless" } else { "format0_annotations_dropped" });
+        match decode_schema(&b0, 0) {
+            Ok((t, used)) if used == b0.len() && t == exp0 => {}
+            _ => p.count("machinery_model_selfcheck_failed", 1),
+        }
+        match real_de(p, &b0, 0) {
+            Ok((back, rest)) if rest == 0 && back == to_real(&exp0) => {
+                say("format 0: model bytes decode to S minus layout annotations".into());
+            }
+            other => {
+                say(format!("format 0: FAILED {:?}", other.as_ref().map(|x| x.1)));
+                p.violation(Violation {
+                    oracle: "format0_decode".into(),
+                    tags: tags(&[("format_version", "0".into())]),
+                    summary: format!(
+                        "format-0 bytes {} decode to {:?}, expected S minus layout annotations, S = {}",
+                        vcommon::hex(&b0),
+                        other.map(|x| (format!("{:?}", x.0).chars().take(200).collect::<String>(), x.1)),
+                        short(s)
+                    ),
+                    case: tree_case(s, Some(0), None),
+                })
+            }
+        }
+    }
+
+    // ---------------------------------------------------------------- (c), (d) diff_schema
+    if f.has_undefined {
+        p.count("diff_excluded_undefined", 1);
+        // informational: the documented behaviour (never comparable)
+        match real_diff(p, &real, &real, false) {
+            DiffOutcome::Differs => p.count("info_undefined_reported_as_difference", 1),
+            DiffOutcome::Same => p.count("info_undefined_tree_compares_equal", 1),
+            DiffOutcome::Panic(_) => p.count("info_undefined_tree_panics", 1),
+        }
+        return;
+    }
+    if f.has_future && !f.futures_in_return_position {
+        p.count("diff_excluded_future_outside_return_position", 1);
+        match real_diff(p, &real, &real, true) {
+            DiffOutcome::Panic(_) => p.count("info_future_outside_return_position_panics", 1),
+            DiffOutcome::Same => p.count("info_future_outside_return_position_same", 1),
+            DiffOutcome::Differs => p.count("info_future_outside_return_position_differs", 1),
+        }
+        return;
+    }
+    p.count("diff_domain_trees", 1);
+    let irps: &[bool] = if f.has_future { &[true] } else { &[false, true] };
+    for irp in irps {
+        let out = real_diff(p, &real, &real, *irp);
+        say(format!("diff_schema(S, S, is_return_pos={}) = {:?}", irp, out));
+        match out {
+            DiffOutcome::Same => p.outcome("reflexive_none"),
+            DiffOutcome::Differs | DiffOutcome::Panic(_) => {
+                let oc = if out == DiffOutcome::Differs { "difference" } else { "panic" };
+                p.violation(Violation {
+                    oracle: "diff_reflexive".into(),
+                    tags: tags(&[("outcome", oc.into()), ("is_return_pos", irp.to_string())]),
+                    summary: format!("diff_schema(S, S, is_return_pos={}) reports {:?} for {}", irp, out, short(s)),
+                    case: tree_case(s, None, None),
+                })
+            }
+        }
+    }
+    if !o.mutations && o.only_mutation.is_none() {
+        return;
+    }
+    let irp = f.has_future;
+    let muts = match &o.only_mutation {
+        Some((kind, result)) => {
+            let all = mutate::mutations(s);
+            match all.into_iter().find(|m| &m.result == result) {
+                Some(m) => vec![m],
+                None => {
+                    println!("  note: stored mutation {} is no longer generated for this tree; evaluating it as required", kind);
+                    vec![mutate::Mutation {
+                        kind: "replayed",
+                        required: true,
+                        desc: kind.clone(),
+                        result: result.clone(),
+                    }]
+                }
+            }
+        }
+        None => mutate::mutations(s),
+    };
+    let mut seen: HashSet<RS> = HashSet::new();
+    for m in muts {
+        if !seen.insert(m.result.clone()) {
+            continue;
+        }
+        let r2 = to_real(&m.result);
+        let ab = real_diff(p, &real, &r2, irp);
+        let ba = real_diff(p, &r2, &real, irp);
+        if o.verbose {
+            println!("  mutation {} [{}] required={} -> diff(S,S')={:?} diff(S',S)={:?}", m.kind, m.desc, m.required, ab, ba);
+        }
+        if m.required {
+            p.count("mutation_pairs_required", 1);
+            p.count(&format!("required:{}", m.kind), 1);
+            for (order, out) in [("ab", &ab), ("ba", &ba)] {
+                p.count("evaluations", 1);
+                match out {
+                    DiffOutcome::Differs => p.outcome("mutation_reported"),
+                    DiffOutcome::Same | DiffOutcome::Panic(_) => {
+                        let oc = if *out == DiffOutcome::Same { "none" } else { "panic" };
+                        p.outcome(&format!("mutation_{}", oc));
+                        p.violation(Violation {
+                            oracle: "diff_complete".into(),
+                            tags: tags(&[("mutation_kind", m.kind.into()), ("order", order.into()), ("outcome", oc.into())]),
+                            summary: format!(
+                                "single wire-altering change not reported ({}): {} [{}], order {}, S = {}",
+                                oc,
+                                m.kind,
+                                m.desc,
+                                order,
+                                short(s)
+                            ),
+                            case: tree_case(s, None, Some((m.kind, &m.desc, &m.result))),
+                        });
+                    }
+                }
+            }
+        } else {
+            p.count("mutation_pairs_control", 1);
+            let cls = match (&ab, &ba) {
+                (DiffOutcome::Same, DiffOutcome::Same) => "not_reported",
+                (DiffOutcome::Differs, DiffOutcome::Differs) => "reported",
+                (DiffOutcome::Panic(_), _) | (_, DiffOutcome::Panic(_)) => "panic",
+                _ => "asymmetric",
+            };
+            p.outcome(&format!("control_{}", cls));
+            p.count(&format!("control:{}:{}", m.kind, cls), 1);
+        }
+    }
+}
+
+// -------------------------------------------------------------------------------- families
+
+struct Family {
+    name: &'static str,
+    what: String,
+    /// runs the enumerator
+    run: Box<dyn Fn(&mut dyn FnMut(RS))>,
+}
+
+fn leaves_small() -> Vec<RS> {
+    vec![RS::Prim(2), RS::PrimString(1)]
+}
+
+/// reduced leaf alphabet for positions that are crossed with each other
+fn leaves_reduced() -> Vec<RS> {
+    vec![
+        RS::Prim(2),
+        RS::Prim(6),
+        RS::PrimString(1),
+        RS::ZeroSize,
+        RS::Custom("c".into()),
+        RS::Recursion(0),
+    ]
+}
+
+/// the full constructor alphabet as children: every primitive code, every string layout, every
+/// unit-like variant, custom strings, recursion depths, empty structs with all annotation
+/// combinations, enums without fields / trait objects / closures / futures without methods at the
+/// reduced attribute tuples
+fn leaves_full() -> Vec<RS> {
+    let mut p = gen::full();
+    let r = gen::reduced();
+    p.enum_attrs = r.enum_attrs.clone();
+    p.variant_attrs = r.variant_attrs.clone();
+    p.trait_attrs = r.trait_attrs.clone();
+    p.fut_flags = r.fut_flags.clone();
+    p.enum_shapes = vec![vec![], vec![0], vec![0, 0]];
+    gen::collect(&p, &[], &[])
+}
+
+fn families(tier: Tier) -> Vec<Family> {
+    let mut fams: Vec<Family> = vec![];
+    let full = gen::full();
+    let red = gen::reduced();
+    let min = gen::minimal();
+    let a0 = leaves_full();
+    let k = leaves_small();
+    let r = leaves_reduced();
+
+    {
+        let full = full.clone();
+        fams.push(Family {
+            name: "depth0_full_attributes",
+            what: format!("every node without schema children; profile {}", gen::describe(&full)),
+            run: Box::new(move |e| gen::nodes(&full, &[], &[], e)),
+        });
+    }
+    {
+        let (full, k) = (full.clone(), k.clone());
+        fams.push(Family {
+            name: "depth1_full_attributes",
+            what: format!(
+                "every node with exactly one schema child from {:?}, all attribute alphabets fully crossed (profile full)",
+                k
+            ),
+            run: Box::new(move |e| gen::nodes(&full, &k, &[], e)),
+        });
+    }
+    {
+        let (red, a0, r) = (red.clone(), a0.clone(), r.clone());
+        fams.push(Family {
+            name: "depth1_full_child_alphabet",
+            what: format!(
+                "every node with one child from the full leaf alphabet ({} leaves) or two children from the reduced leaf alphabet {:?}; profile {}",
+                a0.len(),
+                r,
+                gen::describe(&red)
+            ),
+            run: Box::new(move |e| gen::nodes(&red, &a0, &r, e)),
+        });
+    }
+    // depth 2: children are leaves or depth-1 nodes over a reduced leaf alphabet
+    let d1_single: Vec<RS> = {
+        let mut v = r.clone();
+        v.extend(gen::collect(&min, &r, &[]));
+        dedup(v)
+    };
+    let d1_multi: Vec<RS> = vec![
+        RS::Prim(2),
+        RS::PrimString(1),
+        RS::Vector(Box::new(RS::Prim(2)), 1),
+        RS::Option(Box::new(RS::PrimString(0))),
+        RS::Boxed(Box::new(RS::Prim(6))),
+        RS::Struct {
+            name: "x".into(),
+            size: Some(8),
+            align: Some(4),
+            fields: vec![vmodel::schema::RField {
+                name: "x".into(),
+                value: RS::Prim(6),
+                offset: Some(4),
+            }],
+        },
+        RS::Enum {
+            name: "x".into(),
+            variants: vec![vmodel::schema::RVariant {
+                name: "x".into(),
+                discr: 1,
+                fields: vec![vmodel::schema::RField {
+                    name: "".into(),
+                    value: RS::Prim(2),
+                    offset: None,
+                }],
+            }],
+            discr_size: 1,
+            explicit_repr: true,
+            size: None,
+            align: Some(4),
+        },
+        RS::Array(3, Box::new(RS::Prim(2))),
+    ];
+    {
+        let (min, s1, m1) = (min.clone(), d1_single.clone(), d1_multi.clone());
+        fams.push(Family {
+            name: "depth2_reduced",
+            what: format!(
+                "every node with one child from D1 ({} trees: reduced leaves + every depth-1 node over them under profile minimal) or two children from {} fixed leaf/depth-1 trees; profile {}",
+                s1.len(),
+                m1.len(),
+                gen::describe(&min)
+            ),
+            run: Box::new(move |e| gen::nodes(&min, &s1, &m1, e)),
+        });
+    }
+    if tier == Tier::Thorough {
+        {
+            let (red, a0) = (red.clone(), a0.clone());
+            fams.push(Family {
+                name: "depth1_two_children_full_alphabet",
+                what: format!(
+                    "every node with two children, both from the full leaf alphabet ({} leaves); profile reduced",
+                    a0.len()
+                ),
+                run: Box::new(move |e| gen::nodes(&red, &[], &a0, e)),
+            });
+        }
+        // full depth 2: single child from (full leaves + all depth-1 nodes over the reduced leaves under
+        // the reduced profile), two children from (reduced leaves + fixed depth-1 trees)
+        let d1_big: Vec<RS> = {
+            let mut v = a0.clone();
+            v.extend(gen::collect(&red, &r, &k));
+            dedup(v)
+        };
+        let d1_multi_big: Vec<RS> = {
+            let mut v = r.clone();
+            v.extend(d1_multi.clone());
+            dedup(v)
+        };
+        {
+            let (red, s1, m1) = (red.clone(), d1_big.clone(), d1_multi_big.clone());
+            fams.push(Family {
+                name: "depth2_full",
+                what: format!(
+                    "every node with one child from D1' ({} trees: full leaf alphabet + every depth-1 node with one child from the reduced leaves or two children from {:?}, profile reduced) or two children from {} leaf/depth-1 trees; profile reduced",
+                    s1.len(),
+                    k,
+                    m1.len()
+                ),
+                run: Box::new(move |e| gen::nodes(&red, &s1, &m1, e)),
+            });
+        }
+        // depth 3 over a reduced alphabet
+        let d2_small: Vec<RS> = {
+            let k1 = vec![RS::Prim(2), RS::PrimString(1), RS::ZeroSize];
+            let d1 = gen::collect(&min, &k1, &[]);
+            let mut v = d1.clone();
+            v.extend(gen::collect(&min, &d1, &[]));
+            dedup(v)
+        };
+        {
+            let (min, s2, m1) = (min.clone(), d2_small.clone(), d1_multi.clone());
+            fams.push(Family {
+                name: "depth3_reduced",
+                what: format!(
+                    "every node with one child from D2 ({} trees: all depth<=2 single-child chains over leaves {{u8, String(layout 1), zero-size}} under profile minimal) or two children from {} fixed trees; profile minimal",
+                    s2.len(),
+                    m1.len()
+                ),
+                run: Box::new(move |e| gen::nodes(&min, &s2, &m1, e)),
+            });
+        }
+    }
+    fams
+}
+
+fn dedup(v: Vec<RS>) -> Vec<RS> {
+    let mut seen = HashSet::new();
+    v.into_iter().filter(|x| seen.insert(x.clone())).collect()
+}
+
+// -------------------------------------------------------------------------------- driver
+
+fn process_batch(batch: &[RS], opts: &Opts, threads: usize) -> Partial {
+    let chunk = batch.len().div_ceil(threads.max(1)).max(1);
+    let parts: Vec<Partial> = std::thread::scope(|sc| {
+        let handles: Vec<_> = batch
+            .chunks(chunk)
+            .map(|c| {
+                sc.spawn(move || {
+                    let mut p = Partial::default();
+                    for s in c {
+                        check_tree(s, &mut p, opts);
+                    }
+                    p
+                })
+            })
+            .collect();
+        handles
+            .into_iter()
+            .map(|h| h.join().unwrap_or_else(|_| vcommon::machinery_error("worker thread panicked outside a guarded call")))
+            .collect()
+    });
+    let mut total = Partial::default();
+    for p in parts {
+        total.merge(p);
+    }
+    total
+}
+
+fn replay(args: &vcommon::Args, path: &std::path::Path) -> ! {
+    let text = std::fs::read_to_string(path).unwrap_or_else(|e| vcommon::machinery_error(&format!("cannot read {}: {}", path.display(), e)));
+    let doc: Value = vcommon::serde_json::from_str(&text).unwrap_or_else(|e| vcommon::machinery_error(&format!("replay file unparsable: {}", e)));
+    let oracle = doc["oracle"].as_str().unwrap_or("").to_string();
+    let case = &doc["case"];
+    println!("replaying property={} oracle={} case kind={}", args.property, oracle, case["kind"]);
+    let mut p = Partial::default();
+    match case["kind"].as_str() {
+        Some("tree") => {
+            let s = rs_from_json(&case["tree"]).unwrap_or_else(|e| vcommon::machinery_error(&format!("bad tree in replay file: {}", e)));
+            let only = if case["mutation"].is_object() {
+                let r = rs_from_json(&case["mutation"]["result"]).unwrap_or_else(|e| vcommon::machinery_error(&format!("bad mutation in replay file: {}", e)));
+                Some((case["mutation"]["desc"].as_str().unwrap_or("").to_string(), r))
+            } else {
+                None
+            };
+            println!("  tree: {:?}", s);
+            // stand-alone reproduction on the real code only (no model involved)
+            if let Some(v) = case["version"].as_u64() {
+                if v >= 1 {
+                    let real = to_real(&s);
+                    let mut q = Partial::default();
+                    let rt = real_ser(&mut q, &real, v as u16).and_then(|b| real_de(&mut q, &b, v as u16));
+                    match rt {
+                        Ok((back, rest)) => println!(
+                            "  real code only, format {}: deserialize(serialize(x)) == x: {}; unread bytes: {}\n    written:   {:?}\n    read back: {:?}",
+                            v,
+                            back == real,
+                            rest,
+                            real,
+                            back
+                        ),
+                        Err(e) => println!("  real code only, format {}: round trip fails: {}", v, e),
+                    }
+                }
+            }
+            let opts = Opts {
+                mutations: false,
+                only_mutation: only,
+                verbose: true,
+            };
+            check_tree(&s, &mut p, &opts);
+        }
+        Some("file") | Some("save") => {
+            if let Err(e) = files::replay_file(&mut p, case) {
+                vcommon::machinery_error(&format!("bad file case: {}", e));
+            }
+        }
+        Some("golden") => {
+            let path = std::path::PathBuf::from(case["path"].as_str().unwrap_or(""));
+            files::golden_file(&mut p, &path);
+        }
+        other => vcommon::machinery_error(&format!("unknown case kind {:?}", other)),
+    }
+    let want_version = case["version"].as_u64().map(|v| v.to_string());
+    let mut failing = 0;
+    for (v, n) in p.violations.values() {
+        let same_oracle = v.oracle == oracle;
+        let same_version = match (&want_version, v.tags.get("format_version")) {
+            (Some(w), Some(h)) => w == h,
+            _ => true,
+        };
+        println!("  {} oracle={} tags={:?} x{}: {}", if same_oracle && same_version { "FAILS" } else { "also" }, v.oracle, v.tags, n, v.summary);
+        if same_oracle && same_version {
+            failing += 1;
+        }
+    }
+    if failing > 0 {
+        println!("REPLAY: still failing");
+        std::process::exit(1)
+    }
+    println!("REPLAY: passes now");
+    std::process::exit(0)
+}
+
 fn main() {
-    vcommon::machinery_error("vschema not implemented yet");
+    let args = vcommon::parse_args();
+    if args.property != "C13" {
+        vcommon::machinery_error(&format!("vschema implements C13 only, got {}", args.property));
+    }
+    vcommon::quiet_panics();
+    if let Some(path) = args.replay.clone() {
+        replay(&args, &path);
+    }
+    let mut run = vcommon::Run::new(&args, "model_checking");
+    let threads = std::thread::available_parallelism().map(|n| n.get()).unwrap_or(4).min(16);
+    let count_only = args.extra.iter().any(|a| a == "--count-only");
+    let cap_s: f64 = args.tier.pick(50.0, 1500.0);
+
+    let mut total = Partial::default();
+    let mut keys: HashSet<Vec<u8>> = HashSet::new();
+    let mut family_stats = vec![];
+    let mut idx: u64 = 0;
+    let mut depth_hist = std::collections::BTreeMap::<usize, u64>::new();
+    let mut max_nodes = 0usize;
+    let mut cap_hit = false;
+
+    // ---- files and golden ledger files (their trees also go through the tree oracles)
+    let mut extra_trees = vec![];
+    {
+        let mut p = Partial::default();
+        extra_trees.extend(files::all_file_cases(&mut p));
+        let g = files::all_golden(&mut p);
+        if g.is_empty() {
+            run.notes.push(format!("no golden *.schema file decoded under {}", files::golden_dir().display()));
+        }
+        extra_trees.extend(g);
+        total.merge(p);
+    }
+
+    let opts = Opts {
+        mutations: true,
+        only_mutation: None,
+        verbose: false,
+    };
+    let mut fams = families(args.tier);
+    {
+        let et = extra_trees.clone();
+        fams.push(Family {
+            name: "real_types_and_golden_files",
+            what: "schemas of the three derived test types P, E, N and the trait definitions of the checked-in golden ledger files".into(),
+            run: Box::new(move |e| et.iter().cloned().for_each(e)),
+        });
+    }
+    for fam in &fams {
+        let mut batch: Vec<RS> = vec![];
+        let mut emitted = 0u64;
+        let mut fresh = 0u64;
+        let batch_size = 4096 * threads.max(1) / 4;
+        let flush = |batch: &mut Vec<RS>, total: &mut Partial, cap_hit: &mut bool, run: &vcommon::Run| {
+            if batch.is_empty() {
+                return;
+            }
+            if !count_only && !*cap_hit {
+                if run.elapsed() > cap_s {
+                    *cap_hit = true;
+                } else {
+                    total.merge(process_batch(batch, &opts, threads));
+                }
+            }
+            batch.clear();
+        };
+        (fam.run)(&mut |s: RS| {
+            emitted += 1;
+            let key = encode_schema(&s, 2);
+            if !keys.insert(key) {
+                return;
+            }
+            fresh += 1;
+            *depth_hist.entry(conv::depth(&s)).or_insert(0) += 1;
+            max_nodes = max_nodes.max(conv::node_count(&s));
+            run.sample(idx, || json!({"family": fam.name, "index": idx, "tree": rs_to_json(&s)}));
+            idx += 1;
+            batch.push(s);
+            if batch.len() >= batch_size {
+                flush(&mut batch, &mut total, &mut cap_hit, &run);
+            }
+        });
+        flush(&mut batch, &mut total, &mut cap_hit, &run);
+        family_stats.push(json!({"family": fam.name, "emitted": emitted, "new_distinct_trees": fresh, "bounds": fam.what}));
+        if std::env::var("VERIF_PROGRESS").is_ok() {
+            eprintln!("family {} emitted {} fresh {} t={:.1}s", fam.name, emitted, fresh, run.elapsed());
+        }
+    }
+    if count_only {
+        for f in &family_stats {
+            println!("{} emitted={} fresh={}", f["family"], f["emitted"], f["new_distinct_trees"]);
+        }
+        println!("total distinct {}", keys.len());
+        std::process::exit(0);
+    }
+    if total.counters.get("machinery_model_selfcheck_failed").copied().unwrap_or(0) > 0 {
+        vcommon::machinery_error("the model decoder does not invert the model encoder at format 0 on an enumerated tree");
+    }
+    if cap_hit {
+        run.exhaustive = false;
+        run.notes.push(format!("wall-clock cap of {} s hit; families after the cap were not evaluated", cap_s));
+    }
+
+    // ---- violations
+    for (v, n) in total.violations.values() {
+        for _ in 0..*n {
+            run.violation(v.clone());
+        }
+    }
+
+    // ---- evidence
+    let c = |k: &str| total.counters.get(k).copied().unwrap_or(0);
+    let trees = keys.len() as u64;
+    let required_pairs = c("mutation_pairs_required");
+    let mut cov = Map::new();
+    cov.insert("states".into(), json!(trees + required_pairs + c("file_cases")));
+    cov.insert("distinct_trees".into(), json!(trees));
+    cov.insert("distinct_tree_mutation_pairs_required".into(), json!(required_pairs));
+    cov.insert("distinct_tree_mutation_pairs_control".into(), json!(c("mutation_pairs_control")));
+    cov.insert("file_cases".into(), json!(c("file_cases")));
+    cov.insert("file_gate_cases".into(), json!(c("file_gate_cases")));
+    cov.insert("real_save_cases".into(), json!(c("real_save_cases")));
+    cov.insert("golden_files".into(), json!(c("golden_files")));
+    cov.insert("transitions".into(), json!(c("transitions")));
+    cov.insert("traces_validated_against_impl".into(), json!(c("traces_validated_against_impl")));
+    cov.insert("evaluations".into(), json!(c("evaluations") + c("file_cases")));
+    cov.insert("nontrivial_trees".into(), json!(c("nontrivial_trees")));
+    cov.insert("distinct_nontrivial".into(), json!(c("nontrivial_trees") + required_pairs));
+    cov.insert(
+        "rule".into(),
+        json!("state = distinct schema tree (hash set over its canonical format-2 model encoding), plus distinct (tree, single required mutation) pair, plus file case. All trees of the listed families are enumerated (explicit products, no sampling). A tree is non-trivial for persistence when it carries at least one layout annotation (size/alignment/offset, layout code != 0, discriminant width != 1, explicit repr) or a trait definition, i.e. something the format gates per version; a mutation pair is non-trivial when the mutation is one of the property's wire-altering changes and changes the wire-canonical form of the tree. distinct_nontrivial = nontrivial_trees + distinct_tree_mutation_pairs_required."),
+    );
+    cov.insert("families".into(), json!(family_stats));
+    cov.insert("trees_by_depth".into(), json!(depth_hist.iter().map(|(d, n)| json!({"depth": d, "trees": n})).collect::<Vec<_>>()));
+    cov.insert("max_nodes_per_tree".into(), json!(max_nodes));
+    cov.insert("diff_domain_trees".into(), json!(c("diff_domain_trees")));
+    cov.insert("diff_excluded_undefined".into(), json!(c("diff_excluded_undefined")));
+    cov.insert(
+        "diff_excluded_future_outside_return_position".into(),
+        json!(c("diff_excluded_future_outside_return_position")),
+    );
+    cov.insert("distinct_outcomes".into(), json!(total.outcomes.len()));
+    cov.insert("outcomes".into(), json!(total.outcomes.iter().collect::<Vec<_>>()));
+    let mut per_kind = Map::new();
+    let mut controls = Map::new();
+    let mut info = Map::new();
+    for (k, n) in &total.counters {
+        if let Some(kind) = k.strip_prefix("required:") {
+            per_kind.insert(kind.to_string(), json!(n));
+        } else if let Some(kind) = k.strip_prefix("control:") {
+            controls.insert(kind.to_string(), json!(n));
+        } else if k.starts_with("info_") || k.starts_with("file_control_") {
+            info.insert(k.clone(), json!(n));
+        }
+    }
+    cov.insert("required_mutation_pairs_by_kind".into(), Value::Object(per_kind));
+    cov.insert("control_mutation_outcomes_no_claim".into(), Value::Object(controls));
+    cov.insert("informational".into(), Value::Object(info));
+    cov.insert("wall_clock_cap_s".into(), json!(cap_s));
+    cov.insert("threads".into(), json!(threads));
+    let assumptions = vec![
+        "format-0 schema bytes are what vmodel::schema::encode_schema(.., 0) writes (the format description); the real serializer cannot produce them any more".to_string(),
+        "real Schema values are built with the public constructors and compared with PartialEq; private fields are never read".to_string(),
+        "diff_schema domain: trees without Schema::Undefined (documented as never comparable) and with Future only in return position (root or method return value, through box/reference/slice), compared with is_return_pos = true; everything else is counted as excluded, not judged".to_string(),
+        "completeness is claimed only for the property's list of changes at data positions and method-argument positions; names of structs/fields, layout annotations, layout codes, boxing, and trait-definition policy (method sets, return types, bounds) are controls without a claim".to_string(),
+        "64-bit usize".to_string(),
+    ];
+    run.finish(cov, assumptions)
 }
